@@ -74,6 +74,11 @@ def spell_kid(kid: str, spelling: str) -> str:
     return kid
 
 
+def tref_stem(text: str) -> str:
+    """`pathlib.Path(text).stem` for the plain names used here: the part before the last dot"""
+    return text.rsplit(".", 1)[0] if text and "." in text[1:] else (text or "")
+
+
 def title_text(token: str) -> str:
     return TITLE_TOKENS.get(token, token)
 
@@ -174,7 +179,8 @@ class World:
         if k == "as":
             return f"as:{op[1]}:{op[2]}"                  # titles travel as tokens
         if k == "es":
-            return f"es:{op[1]}:{op[2]}:{op[3]}:{op[4] or '-'}"
+            # the timing reference may be spelled as a file name (`va.mp4`): the handler uses its stem
+            return f"es:{op[1]}:{op[2]}:{op[3]}:{tref_stem(op[4]) or '-'}"
         if k == "ds":
             return f"ds:{op[1]}"
         if k == "sd":
@@ -524,7 +530,8 @@ class World:
 
     # ------------------------------------------------------------------ oracle: deletions (property text)
     DELETING = {"ds": "stream-deletion", "dm": "media-file deletion", "dk": "key deletion",
-                "xm": "multi-period-stream deletion", "up": "media-file replacement (upload of the same name)"}
+                "xm": "multi-period-stream deletion", "up": "media-file replacement (upload of the same name)",
+                "as": "stream-replacement (add with the directory of an existing one)"}
 
     @staticmethod
     def owned_rows(before: dict, op: tuple) -> tuple[dict, set, dict, set]:
@@ -550,11 +557,12 @@ class World:
             own["periods"].update(pp)
             own["adps"].update(a["pk"] for a in before["adps"] if a["period"] in pp)
         k = op[0]
-        if k == "ds":
-            own["streams"].add(op[1])
-            affected.add(op[1])
-            own_files([f for f in before["files"] if f["stream"] == op[1]])
-            own_periods([p for p in before["periods"] if p["stream"] == op[1]])
+        if k in ("ds", "as"):
+            gone = {op[1]} if k == "ds" else {s["pk"] for s in before["streams"] if s["dir"] == op[1]}
+            own["streams"].update(gone)
+            affected.update(gone)
+            own_files([f for f in before["files"] if f["stream"] in gone])
+            own_periods([p for p in before["periods"] if p["stream"] in gone])
         elif k in ("dm", "up"):
             if k == "dm":
                 fs = [f for f in before["files"] if f["pk"] == op[2]]
@@ -593,7 +601,7 @@ class World:
             now = {r["pk"]: r for r in after[t]}
             for r in before[t]:
                 if r["pk"] in own[t]:
-                    if op[0] != "up" and r["pk"] in now:
+                    if op[0] not in ("up", "as") and r["pk"] in now:
                         out.append(f"{what} left a row it owns: {t} {r}")
                     continue
                 want = changed.get((t, r["pk"]), r)
@@ -604,7 +612,7 @@ class World:
         now_links = set(after["links"])
         for x in before["links"]:
             if x in links:
-                if op[0] != "up" and x in now_links:
+                if op[0] not in ("up", "as") and x in now_links:
                     out.append(f"{what} left a key link it owns: {x}")
             elif x not in now_links:
                 out.append(f"{what} removed a key link it does not own: {x}")
@@ -617,7 +625,7 @@ class World:
         a stream none of whose rows the operation owns (and a multi-period stream none of whose periods plays an
         affected stream) answers each manifest with the status it answered before.  (Deleting a key is exempt: a key
         is shared, its deletion legitimately turns DRM manifests of every stream that used it into a clean 404.)"""
-        if res != "ok" or op[0] not in ("ds", "dm", "xm", "up"):
+        if res != "ok" or op[0] not in ("ds", "dm", "xm", "up", "as"):
             return []
         own, _, _, affected = cls.owned_rows(before, op)
         out = []
